@@ -1,8 +1,10 @@
 package txm
 
 import (
+	"bytes"
 	"encoding/json"
 	"fmt"
+	"math/rand"
 	"os"
 	"runtime"
 	"sort"
@@ -10,6 +12,7 @@ import (
 	"sync"
 	"time"
 
+	"github.com/corazawaf/coraza/v3/verifharness/eng"
 	"github.com/corazawaf/coraza/v3/verifharness/vf"
 )
 
@@ -290,4 +293,172 @@ func subset(a, b []string) bool {
 		}
 	}
 	return true
+}
+
+// ---------------------------------------------------------------------------------------------
+// Code -> spec: call logs of real transactions validated against Tx.tla (spec/Tx_Trace.tla)
+// ---------------------------------------------------------------------------------------------
+
+// CollectCfgs asks TLC for the configurations of an instance (with the rule lists RulesOf gives them).
+func CollectCfgs(run *vf.Run, o MCOpts) []Cfg {
+	o.Emit = true
+	o.CallNames = `{"PL"}`
+	seen := map[string]bool{}
+	var out []Cfg
+	var mu sync.Mutex
+	res, err := vf.RunTLC(vf.TLCOpts{Module: "Tx_MC", CfgText: o.cfg(), Workers: 4, Timeout: o.Timeout,
+		OnOut: func(raw json.RawMessage) {
+			var e Edge
+			if json.Unmarshal(raw, &e) == nil {
+				b, _ := json.Marshal(e.Cfg)
+				mu.Lock()
+				if !seen[string(b)] {
+					seen[string(b)] = true
+					out = append(out, e.Cfg)
+				}
+				mu.Unlock()
+			}
+		}})
+	if err != nil || !res.OK() {
+		run.Inconclusive("Tx_MC %s (configurations): %v %v", o.Name, err, res)
+		return nil
+	}
+	sort.Slice(out, func(i, j int) bool { return fmt.Sprint(out[i]) < fmt.Sprint(out[j]) })
+	return out
+}
+
+type traceEv struct {
+	Ev   string `json:"ev"`
+	Name string `json:"name,omitempty"`
+	// cfg
+	Engine string `json:"engine,omitempty"`
+	K      any    `json:"k"`
+	P      int    `json:"p"`
+	Q      int    `json:"q"`
+	Req    *Side  `json:"req,omitempty"`
+	Resp   *Side  `json:"resp,omitempty"`
+	// call
+	Mode       string    `json:"mode"`
+	Ret        *eng.Intr `json:"ret,omitempty"`
+	LastPhase  int       `json:"lastPhase"`
+	Fired      []int     `json:"fired"`
+	Intr       *eng.Intr `json:"intr,omitempty"`
+	Det        *eng.Intr `json:"det,omitempty"`
+	ReqStored  int       `json:"reqStored"`
+	RespStored int       `json:"respStored"`
+	ReqErr     bool      `json:"reqErr"`
+	RespErr    bool      `json:"respErr"`
+}
+
+// TraceTx drives random call sequences on real transactions over the given configurations, records one
+// event per call and has TLC check the whole log against Tx.tla. corrupt != 0 falsifies one recorded
+// field (binding self-test: the log must then be rejected).
+func TraceTx(run *vf.Run, cfgs []Cfg, perCfg, maxLen int, seed int64, corrupt int) (accepted bool, events int, detail string) {
+	rng := rand.New(rand.NewSource(seed))
+	var lines [][]byte
+	calls := []Call{{Name: "PRH"}, {Name: "PRB"}, {Name: "PRSH"}, {Name: "PRSB"}, {Name: "PL"}}
+	for _, k := range []int{1, 3} {
+		for _, m := range []string{"slice", "known", "unknown"} {
+			calls = append(calls, Call{Name: "WREQ", K: k, Mode: m}, Call{Name: "WRESP", K: k, Mode: m})
+		}
+	}
+	canonical := []string{"PRH", "WREQ", "PRB", "PRSH", "WRESP", "PRSB", "PL"}
+	for ci := range cfgs {
+		c := &cfgs[ci]
+		text := Directives(c, 1, "")
+		w, err, p := eng.Compile(text)
+		if p != "" || err != nil {
+			run.Inconclusive("trace driver: configuration rejected: %v %s\n%s", err, p, text)
+			return false, 0, ""
+		}
+		for r := 0; r < perCfg; r++ {
+			b, _ := json.Marshal(traceEv{Ev: "cfg", Engine: c.Engine, K: c.D.K, P: c.D.P, Q: c.D.Q, Req: &c.Req, Resp: &c.Resp, Fired: []int{}})
+			lines = append(lines, b)
+			d := NewDriver(w, 1)
+			n := 3 + rng.Intn(maxLen-2)
+			for j := 0; j < n; j++ {
+				var call Call
+				if rng.Intn(3) == 0 { // follow the canonical order from time to time so that deep states are reached
+					name := canonical[j%len(canonical)]
+					call = Call{Name: name}
+					if name == "WREQ" || name == "WRESP" {
+						call.K, call.Mode = []int{1, 3}[rng.Intn(2)], []string{"slice", "known", "unknown"}[rng.Intn(3)]
+					}
+				} else {
+					call = calls[rng.Intn(len(calls))]
+				}
+				if call.Name == "PL" && d.loggedPL {
+					continue // ProcessLogging is called at most once (assumption of Tx.tla)
+				}
+				if call.Name == "PL" {
+					d.loggedPL = true
+				}
+				ret, _, _ := d.Do(call)
+				post := d.ProjectLite()
+				ev := traceEv{Ev: "call", Name: call.Name, K: call.K, Mode: call.Mode, Ret: &ret, LastPhase: post.LastPhase, Fired: post.Fired,
+					Intr: &post.Intr, Det: &post.DetIntr, Engine: post.Engine, ReqStored: post.ReqStored, RespStored: post.RespStored, ReqErr: post.ReqErr, RespErr: post.RespErr}
+				b, _ := json.Marshal(ev)
+				lines = append(lines, b)
+			}
+			d.Close()
+		}
+		if cl, ok := w.(interface{ Close() error }); ok {
+			_ = cl.Close()
+		}
+	}
+	if corrupt != 0 {
+		// falsify the fired list of a late call event
+		for i := len(lines) - 1; i >= 0; i-- {
+			var ev traceEv
+			if json.Unmarshal(lines[i], &ev) == nil && ev.Ev == "call" && ev.Name == "PL" {
+				ev.Fired = append(ev.Fired, 777)
+				lines[i], _ = json.Marshal(ev)
+				break
+			}
+		}
+	}
+	cfgText := `SPECIFICATION TSpec
+CONSTANTS
+  Engines = {"On"}
+  ReqLimits = {2}
+  Ks = {1}
+  Modes = {"slice"}
+  DisruptKinds = {}
+  Phases2 = {}
+  Qs = {0}
+  ReqShapes = {"off/Reject"}
+  RespShapes = {"off/Reject"}
+  EmitEdges = FALSE
+  CallNames = {"PL"}
+  Slice = 0
+  Slices = 1
+CONSTRAINT Mark
+PROPERTIES TraceInterruptFinal
+POSTCONDITION TraceAccepted
+CHECK_DEADLOCK FALSE
+`
+	if f := os.Getenv("VERIF_KEEP_TRACE"); f != "" {
+		_ = os.WriteFile(f, append(bytes.Join(lines, []byte("\n")), '\n'), 0o644)
+	}
+	res, err := vf.RunTLC(vf.TLCOpts{Module: "Tx_Trace", CfgText: cfgText, Workers: 1, DFS: true, Timeout: 30 * time.Minute,
+		Files: map[string][]byte{"tx_trace.ndjson": append(bytes.Join(lines, []byte("\n")), '\n')}})
+	if err != nil {
+		run.Inconclusive("Tx_Trace: %v", err)
+		return false, len(lines), ""
+	}
+	if corrupt == 0 {
+		run.AddTLC(res)
+	}
+	for _, m := range res.Marks {
+		if strings.Contains(m, "TRACE_REJECTED_AT") {
+			detail = m
+		}
+	}
+	if res.Violated != "" {
+		detail = "violated " + res.Violated + " " + detail
+	}
+	if !res.OK() && detail == "" {
+		detail = res.Describe() + " " + res.ErrorText
+	}
+	return res.OK(), len(lines), detail
 }
